@@ -27,8 +27,8 @@ CLAIM = dict(
 )
 RULE_HISTORY = (
     " History part: states = histories (sequences over {propagate and discard, propagate and continue from the result, write "
-    "by index, write by name, in-place form change, in-place frame change EME2000<->G50, copy()}) up to depth 3 (quick) / 4 "
-    "(thorough) on one Orbit object, for Kepler and J2, from every initial form; every propagation of a history, and three final "
+    "by index, write by name, in-place form change, in-place frame change EME2000<->G50, copy(), iter() over a range, ephem(), "
+    "a directly bound propagator asked for three dates}) up to depth 3 on one Orbit object, for Kepler and J2, from every initial form; every propagation of a history, and three final "
     "ones (0, +5000, -7000 s), are compared with the reference propagation of the object's CURRENT numbers and with a brand-new "
     "Orbit of the same content. Each history is executed on a freshly built object (a case is the whole history)."
 )
@@ -40,9 +40,10 @@ RULE = (
 RULE = RULE + RULE_HISTORY
 BOUNDS = {
     "quick": "10 forms x 2 frames (EME2000, TOD) x 9 e x 5 i x 3 perigee radii x 12 dt x (direct + 3 splits + inverse + period); J2 on all elliptic states x 20 dt; "
-    "operation histories: 7 operations, depth <= 3, Kepler on an ellipse and a hyperbola, J2 on an ellipse, every initial form",
+    "operation histories: 10 operations, depth <= 3, Kepler on an ellipse and a hyperbola, J2 on an ellipse, 4 initial forms; "
+    "every (state, dt) also with the target date labelled TT / GPS / TAI (rotating)",
     "thorough": "10 forms x 4 frames (EME2000, GCRF, G50, TOD) x 9 e x 5 i x 6 perigee radii (with their node/perigee/M0) x 20 dt x (direct + 3 splits + inverse + period); J2 likewise; "
-    "operation histories: depth <= 4, 6 (propagator, orbit) pairs",
+    "operation histories: 10 operations, depth <= 3, 6 (propagator, orbit) pairs x every initial form; date labels as in quick",
 }
 ASSUMPTIONS = [
     "hyperbolic initial states are given in the 8 forms defined for them (not TLE, not keplerian_mean_circular - see C01)",
@@ -112,7 +113,7 @@ def units(tier, seed):
                 u.append((cfg, dict(frame=frame, form=form, e=e, tier=tier)))
     # operation histories: one unit per (propagator, orbit, initial form, first operation)
     for prop, orb in HK_ORBITS[tier]:
-        for form in fr.FORMS:
+        for form in HK_FORMS[tier] or fr.FORMS:
             if orb[0] > 1 and form in ("tle", "keplerian_mean_circular"):
                 continue
             for first in HK_OPS:
@@ -286,6 +287,28 @@ def _propagate(orbit, arg, t, sig, clause, case, what, cls=""):
     return out, arr
 
 
+SCALES = ["TT", "GPS", "TAI"]
+
+
+def check_scale_label(t, o, prop, R, dt, x, case, form):
+    """The same target instant labelled in another time scale (zero-EOP configuration: TT = TAI + 32.184 s,
+    GPS = TAI - 19 s, UTC = TAI) must give the same state as the timedelta call that produced x."""
+    scale = SCALES[(int(round(abs(dt) * 1e6)) + len(form)) % len(SCALES)]
+    target = (_W["date"] + _td(dt)).change_scale(scale)
+    c2 = dict(case, scale=scale)
+    clause = "propagate(date) is the state at that instant, whatever time scale the date is labelled in"
+    out, y = _propagate(o, target, t, f"{prop}.propagate/date-scale-label", clause, c2, f"propagate(date labelled {scale})")
+    if y is None:
+        return
+    t.ev()
+    # the relabelled date is rebuilt from a datetime: 1 microsecond of resolution -> |v| x 2 us / |r|
+    tol = 2 * (state_tol(R, dt) if R["conic"] == "ell" else state_tol(R, dt) + FAR_SAFETY * far_eta(R, x)) + 2 * TOL_TIME * sens(R, x) * R["n"]
+    d = _rel(y, x)
+    if not _margin(t, f"{prop}: date in another scale vs timedelta [rel/tol]", d, tol, c2):
+        t.fail(f"{prop}.propagate/date-scale-label", clause, c2, x, y,
+               f"from {form}: propagate({target}) differs by {d:.3e} (rel) from propagate(timedelta({dt} s)) of the same instant (tol {tol:.1e})")
+
+
 def check_kepler(orb, form, frame, dt, t, tier="quick"):
     from mc.ref import twobody as tb
     from mc.ref import forms_ref as fr
@@ -323,6 +346,7 @@ def check_kepler(orb, form, frame, dt, t, tier="quick"):
     if not _margin(t, f"kepler {conic}: vs universal-variable solution [rel/tol(n dt)]", d, tol, case):
         t.fail(f"{sig}/vs-universal-variable", clause0, case, ref, x, f"from {form}: |d|rel = {d:.3e} > {tol:.3e} at dt = {dt} s")
         return
+    check_scale_label(t, o, "Kepler", R, dt, x, case, form)
     # (2) elements re-derived from r, v
     k = tb.cart_to_kep(x, R["mu"])
     cond = R["cond"]
@@ -453,6 +477,7 @@ def check_j2(orb, form, frame, dt, t):
     tol = TOL_ELL * cond * grow
     d = _rel(x, ref)
     okstate = _margin(t, "j2: state vs secular-rate model [rel/tol]", d, tol, case)
+    check_scale_label(t, o, "J2", R, dt, x, case, form)
     k = tb.cart_to_kep(x, R["mu"])
     etol = TOL_EL * cond
     bad = False
@@ -497,6 +522,9 @@ def check_j2(orb, form, frame, dt, t):
 #   prop    target.propagate(+1234 s), result compared with the reference and discarded (the target is unchanged:
 #           this is what initialises / re-uses the propagator bound to the object)
 #   step    target = target.propagate(+600 s)     (checked, too)
+#   iter    list(target.iter(start=epoch, stop=+1800 s, step=600 s)): every yielded state is checked
+#   ephem   target.ephem(start=epoch, stop=+1800 s, step=600 s): every tabulated state is checked
+#   direct  a propagator object bound once (P = <class>(); P.orbit = target) and asked for two dates in a row
 #   idx     write the last three components by index:  target[3:] = 1.01 x target[3:]
 #   name    write the first component by its name:     target.<first parameter> = 0.97 x value
 #   form    in-place form change
@@ -506,7 +534,7 @@ def check_j2(orb, form, frame, dt, t):
 # compared with the reference propagation (universal variables / secular J2 model) of the state the reference model
 # derives from the target's CURRENT numbers, form and frame at the moment of the call.
 
-HK_OPS = ["prop", "step", "idx", "name", "form", "frame", "copy"]
+HK_OPS = ["prop", "step", "iter", "ephem", "direct", "idx", "name", "form", "frame", "copy"]
 HK_FRAMES = {"EME2000": "G50", "G50": "EME2000"}
 HK_FINAL = [0.0, 5000.0, -7000.0]
 HK_ORBITS = {
@@ -514,7 +542,9 @@ HK_ORBITS = {
     "thorough": [("Kepler", (0.1, 1.1, 7.0e6, 3.5, 5.5, -2.0)), ("J2", (0.1, 1.1, 7.0e6, 3.5, 5.5, -2.0)), ("Kepler", (1.5, 2.5, 6.7e6, 1.0, 0.7, 0.8)),
                  ("Kepler", (0.5, 0.01, 4.2e7, 6.0, 3.0, 3.5)), ("J2", (0.5, 2.5, 4.2e7, 6.0, 3.0, 3.5)), ("Kepler", (3.7, 1.1, 7.0e6, 3.5, 5.5, -2.0))],
 }
-HK_DEPTH = {"quick": 3, "thorough": 4}
+HK_DEPTH = {"quick": 3, "thorough": 3}
+# initial forms of the history part (the history logic does not depend on the element form beyond the first conversion)
+HK_FORMS = {"quick": ["cartesian", "keplerian_mean", "spherical", "tle"], "thorough": None}
 
 
 def hk_histories(depth):
@@ -542,43 +572,92 @@ def _state_R(obj):
                 conic="ell" if e < 1 else "hyp", cond=1 + 1 / abs(1 - e))
 
 
-def _hk_propagate(t, st, dt, prop, case, what):
-    """target.propagate(dt) on the real code vs. the reference propagation of the target's current state.
-    Returns the library result (or None)."""
+def _hk_reference(Rc, prop, dt):
     from mc.ref import twobody as tb
 
+    if prop == "Kepler":
+        return tb.propagate_uv(Rc["rv"], dt, Rc["mu"])
+    dOm, dw, dM = j2_rates(Rc)
+    nu = tb.mean_to_true(Rc["M0"] + dM * dt, Rc["e"])[0]
+    return tb.kep_to_cart(Rc["a"], Rc["e"], Rc["i"], Rc["Om"] + dOm * dt, Rc["w"] + dw * dt, nu, Rc["mu"])
+
+
+def _hk_compare(t, Rc, o, out, dt, prop, sig, clause, case, what):
+    """One state `out` produced by the library for date o.date + dt vs. the reference propagation of o's content."""
+    try:
+        x = np.array(out.copy(form="cartesian"), dtype=float)
+    except Exception as ex:
+        t.fail(sig, clause, case, "a state", repr(ex), f"{what}: {ex!r}")
+        return
+    if not np.all(np.isfinite(x)):
+        t.fail(f"{sig}/non-finite", clause, case, "finite position and velocity", x, what)
+        return
+    t.ev()
+    if out.frame.name != o.frame.name or abs((out.date - (o.date + _td(dt))).total_seconds()) > TOL_TIME:
+        t.fail(sig, "propagate(dt) is the state at date+dt in the same frame", case, [str(o.date + _td(dt)), o.frame.name], [str(out.date), out.frame.name], what)
+        return
+    ref = _hk_reference(Rc, prop, dt)
+    tol = state_tol(Rc, dt) + FAR_SAFETY * far_eta(Rc, ref)
+    d = _rel(x, ref)
+    if not _margin(t, f"history {prop}: vs reference propagation of the current state [rel/tol]", d, tol, case):
+        t.fail(sig, clause, case, ref, x, f"{what}: state for epoch{dt:+.0f} s is {d:.3e} (rel) away from the reference propagation of the object's current state (tol {tol:.1e})")
+    return x
+
+
+def _hk_propagate(t, st, dt, prop, case, what, mode="prop"):
+    """target.propagate(dt) [mode prop], or the iter / ephem / direct-propagator variants, on the real code vs. the
+    reference propagation of the target's current state.  Returns the library result of mode prop (or None)."""
     o = st["obj"]
     Rc = _state_R(o)
     cls = f"{'primed' if st['primed'] else 'fresh'}/after-{st['mut']}"
-    sig = f"{prop}.propagate/history/{cls}"
+    sig = f"{prop}.propagate/history/{cls}" if mode == "prop" else f"{prop}.{mode}/history/{cls}"
     clause = "propagation starts from the current state of the orbit, whatever was done with the object before"
     if Rc is None:
         t.fail(f"{prop}.propagate/history/state-lost", "operations keep a valid state", case, None, np.array(o, dtype=float), what)
         return None
     if Rc == "outside" or (prop == "J2" and Rc["conic"] == "hyp"):
         t.exclude("history leaves the property's domain of e / i")
+        if mode != "prop":
+            return None
         try:
             return o.propagate(_td(dt))
         except Exception:
             return None
+    if mode in ("iter", "ephem"):
+        kw = dict(start=o.date, stop=_td(1800.0), step=_td(600.0))
+        try:
+            states = list(o.iter(**kw)) if mode == "iter" else list(o.ephem(**kw))
+            t.trans(len(states))
+        except Exception as ex:
+            t.fail(f"{sig}/raises-{type(ex).__name__}", clause, case, "4 states", repr(ex), f"{what}: {ex!r}")
+            return None
+        st["primed"] = True
+        if len(states) != 4:
+            t.fail(sig, "iteration yields start, start+step, ..., stop", case, 4, len(states), what)
+        for k, y in enumerate(states):
+            dtk = (y.date - o.date).total_seconds()
+            _hk_compare(t, Rc, o, y, dtk, prop, sig, clause, case, f"{what}, state #{k}")
+        return None
+    if mode == "direct":
+        from beyond.propagators import get_propagator
+
+        try:
+            P = get_propagator(prop)()
+            P.orbit = o
+            for k, dtk in enumerate((700.0, 1400.0, -300.0)):
+                y = P.propagate(o.date + _td(dtk)) if k != 1 else P.propagate(_td(dtk))
+                t.trans()
+                _hk_compare(t, Rc, o, y, dtk, prop, sig, clause, case, f"{what}, call #{k}")
+        except Exception as ex:
+            t.fail(f"{sig}/raises-{type(ex).__name__}", clause, case, "states", repr(ex), f"{what}: {ex!r}")
+        return None
     out, x = _propagate(o, _td(dt), t, sig, clause, case, what)
     st["primed"] = True
     if x is None:
         return None
-    t.ev()
-    if out.frame.name != o.frame.name or abs((out.date - (o.date + _td(dt))).total_seconds()) > TOL_TIME:
-        t.fail(sig, "propagate(dt) is the state at date+dt in the same frame", case, [str(o.date + _td(dt)), o.frame.name], [str(out.date), out.frame.name], what)
+    x = _hk_compare(t, Rc, o, out, dt, prop, sig, clause, case, what)
+    if x is None:
         return out
-    if prop == "Kepler":
-        ref = tb.propagate_uv(Rc["rv"], dt, Rc["mu"])
-    else:
-        dOm, dw, dM = j2_rates(Rc)
-        nu = tb.mean_to_true(Rc["M0"] + dM * dt, Rc["e"])[0]
-        ref = tb.kep_to_cart(Rc["a"], Rc["e"], Rc["i"], Rc["Om"] + dOm * dt, Rc["w"] + dw * dt, nu, Rc["mu"])
-    tol = state_tol(Rc, dt) + FAR_SAFETY * far_eta(Rc, ref)
-    d = _rel(x, ref)
-    if not _margin(t, f"history {prop}: vs reference propagation of the current state [rel/tol]", d, tol, case):
-        t.fail(sig, clause, case, ref, x, f"{what}: propagate({dt} s) is {d:.3e} (rel) away from the reference propagation of the object's current state (tol {tol:.1e})")
     # independence from the call history, sharply: a brand-new Orbit with the same numbers / form / frame / date gives
     # the same result (same code, same inputs; 1e-12 x cond leaves room for legitimate re-association only)
     try:
@@ -613,6 +692,8 @@ def check_history(prop, orb, form, ops, t):
                 if out is None:
                     return
                 st = dict(obj=out, primed=False, mut="propagated")
+            elif op in ("iter", "ephem", "direct"):
+                _hk_propagate(t, st, 0.0, prop, case, what, mode=op)
             elif op == "idx":
                 o[3:] = np.array(o, dtype=float)[3:] * 1.01
                 st["mut"] = "write"
@@ -639,6 +720,7 @@ def check_history(prop, orb, form, ops, t):
     t.ev(("hist", prop) + tuple(orb) + (form,) if ops else None)
     for dt in HK_FINAL:
         _hk_propagate(t, st, dt, prop, dict(case, final_dt=dt), f"final propagate({dt} s) after {list(ops)} from {form}")
+    _hk_propagate(t, st, 0.0, prop, dict(case, final="iter"), f"final iter() after {list(ops)} from {form}", mode="iter")
     t.outcome(("hist", prop, len(ops), tuple(sorted(set(ops)))))
 
 
